@@ -348,7 +348,7 @@ func (h *Hist) Exec(op Op) Op {
 			h.cw.Add(pre, fmt.Sprintf("CMigrateSrv %s %s", z(h.id(op.A)), z(h.id(op.B))), obs, post, h.cfg)
 		}
 		h.rep.Count("migrate:" + op.Mode + ":" + strings.SplitN(cls, ":", 2)[0])
-		if err == nil {
+		if err == nil && op.A != op.B {
 			h.moved[op.A] = op.B
 			h.tags["migrated"] = true
 			nd, nu := 0, 0
